@@ -237,30 +237,38 @@ def contentErrs (lk : Lookup) : List Id → List Err
       | none => [Err.FileBlobNotInIndex]
       | some _ => []) ++ contentErrs lk l
 
+/-- the subtree of a node that is not a directory: the tree streamers (`TreeStreamerOnce`, the node streamer of
+ls / restore) follow the subtree of *any* node, so — since `fix: check ignored subtrees of non-directory nodes` —
+`check_trees` looks at it as well (null id, missing in the index, else its pack joins the read set). -/
+def subtreeErrs (lk : Lookup) : Option Id → List Err
+  | none => []
+  | some id =>
+    if id = nullId then [Err.NullSubTree] else
+    match lk .tree id with
+    | none => [Err.SubTreeMissingInIndex]
+    | some _ => []
+
+def subtreePacks (lk : Lookup) : Option Id → List Id
+  | none => []
+  | some id => if id = nullId then [] else ((lk .tree id).map (·.pack)).toList
+
 def nodeErrs (lk : Lookup) (n : Node) : List Err :=
   match n.kind with
   | .file =>
-    match n.content with
-    | none => [Err.FileHasNoContent]
-    | some ids => contentErrs lk ids
+    (match n.content with
+      | none => [Err.FileHasNoContent]
+      | some ids => contentErrs lk ids) ++ subtreeErrs lk n.subtree
   | .dir =>
     match n.subtree with
     | none => [Err.NoSubTree]
-    | some id =>
-      if id = nullId then [Err.NullSubTree] else
-      match lk .tree id with
-      | none => [Err.SubTreeMissingInIndex]
-      | some _ => []
-  | .other => []
+    | some id => subtreeErrs lk (some id)
+  | .other => subtreeErrs lk n.subtree
 
 def nodePacks (lk : Lookup) (n : Node) : List Id :=
   match n.kind with
-  | .file => (n.content.getD []).filterMap (fun d => (lk .data d).map (·.pack))
-  | .dir =>
-    match n.subtree with
-    | none => []
-    | some id => if id = nullId then [] else ((lk .tree id).map (·.pack)).toList
-  | .other => []
+  | .file => (n.content.getD []).filterMap (fun d => (lk .data d).map (·.pack)) ++ subtreePacks lk n.subtree
+  | .dir => subtreePacks lk n.subtree
+  | .other => subtreePacks lk n.subtree
 
 def roots (r : Repo) : List Id := newIds [] (r.snaps.map (·.tree))
 
